@@ -271,6 +271,12 @@ impl Gen {
                 n -= short;
             }
             let mut args: Vec<Expr> = (0..n).map(|_| sub!()).collect();
+            // one call in six has only literal arguments (the optimisers evaluate such calls at compile time)
+            if self.rng.random_range(0..6) == 0 {
+                for a in args.iter_mut() {
+                    *a = Expr::Lit(self.literal());
+                }
+            }
             // arguments bound to a destructuring position get a value of fitting shape more often than not
             let mut cur = &f.pat;
             for a in args.iter_mut() {
